@@ -109,6 +109,9 @@ def check_initial(item, acc):
                     bad("size-count-exceeded", "size counts %r exceed the initial ones %r" % (dict(dim), dict(dim0)))
                 if len(E) == len(edges) and (deg != deg0 or dim != dim0):
                     bad("not-preserved", "no hyperedges coincided but degrees/sizes changed: %r vs %r" % (sorted(E), sorted(edges)))
+                # only hyperedges of the same size can coincide, and merging never removes the last one of a size
+                if any(dim[k] < 1 for k in dim0):
+                    bad("size-vanished", "a conditioned size has no hyperedge left (coincidences cannot cause that): sizes %r, conditioned %r" % (dict(dim), dict(dim0)))
                 outs_seen.add(tuple(E))
             unseeded = [g.tag for g in fac.made if g.seed is None and g.draws > 0]
             if unseeded:
@@ -157,6 +160,8 @@ def check_sequences(item, acc):
                 bad("size-count-exceeded", "size counts %r exceed the conditioned ones %r" % (dict(dim), dim0))
             if len(E) == total and dict(dim) != {k: v for k, v in dim0.items() if v}:
                 bad("size-count-not-met", "no hyperedges coincided but size counts %r differ from %r" % (dict(dim), dim0))
+            if any(v >= 1 and dim[k] < 1 for k, v in dim0.items()):
+                bad("size-vanished", "a conditioned size has no hyperedge left (coincidences cannot cause that): sizes %r, conditioned %r" % (dict(dim), dim0))
             if sp.matching_sequences:
                 if any(deg[v] > deg_seq[v] for v in deg):
                     bad("degree-exceeded", "degrees %r exceed the conditioned ones %r although the sampler reports matching sequences" % (dict(deg), list(deg_seq)))
@@ -275,6 +280,14 @@ def items(tier):
                 continue
             yield ("init", (labels, es, burn, inter, ns, 4))
     yield ("init", (("a", "b", "c", "d", "e"), (("a", "b"), ("c", "d", "e")), 1, 1, 1, 5))
+    # two consecutive samples from one generator, with chain moves in between (state carried from one sample to the next)
+    for es in (((2, 5), (5, 7, 11)), ((2, 5), (7, 11)), ((2, 5, 7), (7, 11))):
+        yield ("init", (labels, es, 0, 1, 2, 4))
+    # a hyperedge containing every node of the model (size N)
+    yield ("init", (labels, ((2, 5, 7, 11), (2, 5)), 0, 1, 1, 4))
+    yield ("init", (labels, ((2, 5, 7, 11), (5, 7, 11)), 1, 0, 1, 4))
+    yield ("seq", ((2, 2, 1, 1), ((2, 1), (4, 1)), 0, 0, 4))
+    yield ("seq", ((2, 1, 1, 1, 1), ((5, 1), (2, 1))[::-1], 0, 0, 5))
     # every (deg_seq, dim_seq) with equal totals for N = 4, sizes {2,3}, <= 3 hyperedges
     for n2 in range(0, 4):
         for n3 in range(0, 4 - n2):
